@@ -1119,5 +1119,34 @@ def rule_r12(ctx) -> RuleResult:
     return rr
 
 
+def rule_r13(ctx) -> RuleResult:
+    """`Wtp.node_to_wikitext` is the public entry of the serialiser.  Whatever it is given -- a node, a list of children, a bare
+    string -- has to go through to_wikitext(), because that is where literal `[[`/`]]` in text are protected from being read
+    back as a link.  A wrapper that answers some inputs itself bypasses that (seed C19-9B: a bare `str` returned unchanged)."""
+    rr = RuleResult("C19.R13", "node_to_wikitext hands every input to to_wikitext", min_instances=1)
+    dotted = "core.Wtp.node_to_wikitext"
+    fn = ctx.fn(dotted)
+    first = fn.args.args[1].arg if len(fn.args.args) > 1 else "node"
+    rets = [r for r in walk_no_nested(fn) if isinstance(r, ast.Return)]
+    if not rets:
+        raise AnalysisError("node_to_wikitext: no return found")
+    for r in rets:
+        v = r.value
+        if isinstance(v, ast.Name):
+            defs = [n.value for n in walk_no_nested(fn) if isinstance(n, ast.Assign) and len(n.targets) == 1 and unparse(n.targets[0]) == v.id]
+            if len(defs) == 1:
+                v = defs[0]
+        if isinstance(v, ast.Call) and unparse(v.func).split(".")[-1] == "to_wikitext":
+            rr.ok(dotted, "return to_wikitext(...)")
+        elif v is not None and any(isinstance(x, ast.Name) and x.id == first for x in ast.walk(v)) \
+                and not any(isinstance(c, ast.Call) and unparse(c.func).split(".")[-1] == "to_wikitext" for c in ast.walk(v)):
+            rr.bad(Finding("C19.R13", "src/wikitextprocessor/core.py", dotted, unparse(r)[:70],
+                           "this path returns (part of) the input without passing it through to_wikitext(): text handed to the public "
+                           "serialiser keeps its literal `[[...]]` unprotected and is read back as a link", r.lineno))
+        else:
+            raise AnalysisError("node_to_wikitext: return `{}` not recognised".format(unparse(r)[:50]))
+    return rr
+
+
 def run(ctx) -> list:
-    return [rule_r1(ctx), rule_r2(ctx), rule_r3(ctx), rule_r4(ctx), rule_r5(ctx), rule_r6(ctx), rule_r7(ctx), rule_r8(ctx), rule_r9(ctx), rule_r10(ctx), rule_r11(ctx), rule_r12(ctx)]
+    return [rule_r1(ctx), rule_r2(ctx), rule_r3(ctx), rule_r4(ctx), rule_r5(ctx), rule_r6(ctx), rule_r7(ctx), rule_r8(ctx), rule_r9(ctx), rule_r10(ctx), rule_r11(ctx), rule_r12(ctx), rule_r13(ctx)]
